@@ -36,7 +36,11 @@ def _medium(ch, feats):
         win = ch.pick([{}, {'max_wavelength': 2.4}, {'min_wavelength': 0.4},
                        {'min_wavelength': 0.35, 'max_wavelength': 2.3}],
                       tag='window')
-        return ['glass', ch.pick(WINDOW_GLASSES, tag='wglass'), None, win]
+        # few distinct names per lens, so that the same name meets itself
+        # with another window
+        names = WINDOW_GLASSES[:1 + ch.randint(0, 1)] if ch.chance(0.7) \
+            else WINDOW_GLASSES
+        return ['glass', ch.pick(names, tag='wglass'), None, win]
     opts = [('ideal', 3)]
     if 'glass' in feats:
         opts.append(('glass', 3))
